@@ -201,6 +201,39 @@ def tiny_bounding(rng, k, name="tb"):
     return mk(name, True, cols, rows)
 
 
+def tiny_pivot(rng, k, name="tp"):
+    """max x  s.t.  10^-k x + y <= b,  x - c y >= -d,  x, y >= 0: bounded, optimum b 10^k at y = 0.  The only entry that blocks x
+    is far below the pivot tolerances of the first precision levels, and x also has an ordinary-size entry in the other row, so
+    that no row / column scaling can repair the column (unlike tiny_bounding)."""
+    e = F(1, 10 ** k)
+    b, c, d = F(rng.randint(1, 4)), F(rng.randint(1, 3)), F(rng.randint(0, 2))
+    if rng.random() < 0.5:
+        lp = mk(name, True, [(F(1), 0, INF), (F(0), 0, INF)], [("L", b, F(0), [(0, e), (1, F(1))]), ("G", -d, F(0), [(0, F(1)), (1, -c)])])
+    else:       # the minimisation twin, x replaced by -x
+        lp = mk(name, False, [(F(1), NINF, 0), (F(0), 0, INF)], [("L", b, F(0), [(0, -e), (1, F(1))]), ("L", d, F(0), [(0, F(1)), (1, c)])])
+    lp["numbers"] = "tiny"
+    return lp
+
+
+def tiny_cost(rng, k, name="tk"):
+    """ordinary small LPs in which one or two objective coefficients are c 10^-k (below the dual feasibility tolerance of the
+    floating-point stages) on columns without a bound on the improving side: the vertex where double precision stops is optimal
+    only within its tolerance; the truth is another vertex, or UNBOUNDED"""
+    e = F(1, 10 ** k)
+    shape = rng.randrange(4)
+    a, b = F(rng.randint(1, 3)), F(rng.randint(2, 9))
+    if shape == 0:      # min -e x + y, a x + y <= b : optimum -e b / a at (b/a, 0)
+        lp = mk(name, False, [(-e, 0, INF), (F(1), 0, INF)], [("L", b, F(0), [(0, a), (1, F(1))])])
+    elif shape == 1:    # max e x - y, a x - y <= b
+        lp = mk(name, True, [(e, 0, INF), (F(-1), 0, INF)], [("L", b, F(0), [(0, a), (1, F(-1))])])
+    elif shape == 2:    # max e x, x - y >= 1 : unbounded
+        lp = mk(name, True, [(e, 0, INF), (F(0), 0, INF)], [("G", F(1), F(0), [(0, F(1)), (1, F(-1))])])
+    else:               # min x + e y, x + y >= b, y <= 3 b (row) : optimum at y = b ... only the tiny cost separates the vertices
+        lp = mk(name, False, [(F(1), 0, INF), (e, 0, INF)], [("G", b, F(0), [(0, F(1)), (1, F(1))]), ("L", 3 * b, F(0), [(1, F(1))])])
+    lp["numbers"] = "tiny"
+    return lp
+
+
 def dependent_cols(rng, name="dc"):
     """a planted (feasible, bounded) LP plus free columns that are multiples of existing columns (objective scaled alike):
     status and value are unchanged, but every basis containing a column and its multiple is singular.
